@@ -36,27 +36,65 @@ func (x *Exec) mergeCall(fn *ssa.Function, args []Value, bind []Value) Value {
 		val  Value
 	}
 	var outs []outcome
+	var panicCond *smt.Term = x.B.False
+	var panicMsg string
 	work := [][]bool{nil}
+	limit := x.Cfg.Bound("merge_paths", 20000)
+	n := 0
 	for len(work) > 0 {
 		pre := work[len(work)-1]
 		work = work[:len(work)-1]
 		ms := &mergeState{prefix: pre, objLim: x.objN}
 		x.merge = ms
 		var val Value
+		panicked := false
 		func() {
-			defer func() { x.merge = nil }()
+			defer func() {
+				x.merge = nil
+				if r := recover(); r != nil {
+					gp, ok := r.(goPanic)
+					if !ok {
+						panic(r)
+					}
+					panicked = true
+					panicMsg = gp.Msg
+				}
+			}()
 			val = x.CallFunction(fn, args, bind)
 		}()
-		outs = append(outs, outcome{x.B.And(ms.conds...), val})
+		cond := x.B.And(ms.conds...)
+		if panicked {
+			panicCond = x.B.Or(panicCond, cond)
+		} else {
+			outs = append(outs, outcome{cond, val})
+		}
 		for i := len(pre); i < len(ms.trace); i++ {
 			np := make([]bool, i+1)
 			copy(np, ms.trace[:i])
 			np[i] = !ms.trace[i]
 			work = append(work, np)
 		}
-		if len(outs) > 64 {
-			x.Unsupported("merged callee %s has too many paths", fn.String())
+		n++
+		if n > limit {
+			x.Unsupported("merged callee %s has more than %d paths", fn.String(), limit)
 		}
+	}
+	x.Summ["merged-paths"] += n
+	if !panicCond.IsFalse() {
+		if x.Branch(panicCond) {
+			panic(goPanic{Msg: panicMsg})
+		}
+	}
+	if len(outs) == 0 {
+		x.Unsupported("merged callee %s has no normal return", fn.String())
+	}
+	// boolean results: disjunction of the conditions of the true outcomes is smaller than an ite chain
+	if _, ok := outs[0].val.(BoolV); ok {
+		r := x.B.False
+		for _, o := range outs {
+			r = x.B.Or(r, x.B.And(o.cond, o.val.(BoolV).T))
+		}
+		return BoolV{r}
 	}
 	res := outs[len(outs)-1].val
 	for i := len(outs) - 2; i >= 0; i-- {
